@@ -1,8 +1,6 @@
 package rules
 
 import (
-	"go/ast"
-	"go/token"
 	"go/types"
 	"strings"
 
@@ -399,149 +397,4 @@ func handleWiring(c *core.Ctx, r *core.Report) {
 			r.Check(got == a.want, a.fn+"#flag", an.Pos(c, ret), a.fn+" reads T."+a.want, a.fn+" reads T."+got+" instead of T."+a.want)
 		}
 	}
-}
-
-// reverseLoopShape checks T.teardown's loop on the type-checked syntax tree (DESIGN §4 C06.R4).
-func reverseLoopShape(c *core.Ctx, r *core.Report) {
-	p := c.ByRel["pkg/f1/testing"]
-	if p == nil {
-		panic(core.AnchorError{What: "pkg/f1/testing"})
-	}
-	stack := handleFields(c).stack
-	isStack := func(e ast.Expr) bool {
-		sel, ok := ast.Unparen(e).(*ast.SelectorExpr)
-		if !ok {
-			return false
-		}
-		return p.TypesInfo.Uses[sel.Sel] == types.Object(stack)
-	}
-	isLenStack := func(e ast.Expr) bool {
-		call, ok := ast.Unparen(e).(*ast.CallExpr)
-		if !ok || len(call.Args) != 1 {
-			return false
-		}
-		id, ok := call.Fun.(*ast.Ident)
-		return ok && id.Name == "len" && isStack(call.Args[0])
-	}
-	isLenMinus1 := func(e ast.Expr) bool {
-		b, ok := ast.Unparen(e).(*ast.BinaryExpr)
-		if !ok || b.Op != token.SUB {
-			return false
-		}
-		lit, ok := b.Y.(*ast.BasicLit)
-		return ok && lit.Value == "1" && isLenStack(b.X)
-	}
-	found := 0
-	for _, f := range p.Syntax {
-		ast.Inspect(f, func(n ast.Node) bool {
-			// any call of an element of the cleanup stack
-			call, ok := n.(*ast.CallExpr)
-			if !ok {
-				return true
-			}
-			idx, ok := ast.Unparen(call.Fun).(*ast.IndexExpr)
-			if !ok || !isStack(idx.X) {
-				return true
-			}
-			found++
-			pos := c.Pos(call.Pos())
-			key := "T.teardown#order"
-			// enclosing for statement
-			var loop ast.Stmt
-			path := enclosing(f, call.Pos())
-			for i := len(path) - 1; i >= 0; i-- {
-				switch path[i].(type) {
-				case *ast.ForStmt, *ast.RangeStmt:
-					loop, _ = path[i].(ast.Stmt)
-				}
-				if loop != nil {
-					break
-				}
-			}
-			fs, ok := loop.(*ast.ForStmt)
-			if !ok {
-				if rs, isRange := loop.(*ast.RangeStmt); isRange {
-					// forward range is only right when the index expression is len-1-i
-					if k, ok := rs.Key.(*ast.Ident); ok && isMirror(idx.Index, k, isLenStack) {
-						r.OK(key, pos, "forward range indexing len-1-%s", k.Name)
-						return true
-					}
-					r.Violation(key, pos, "cleanups are called in a forward range over the stack: they run in registration order, not in reverse")
-					return true
-				}
-				r.Violation(key, pos, "cleanup call is not inside a loop over the cleanup stack")
-				return true
-			}
-			// descending form: i := len-1; i >= 0; i--; index i
-			var iv *ast.Ident
-			if as, ok := fs.Init.(*ast.AssignStmt); ok && len(as.Lhs) == 1 && len(as.Rhs) == 1 {
-				iv, _ = as.Lhs[0].(*ast.Ident)
-				if iv != nil && isLenMinus1(as.Rhs[0]) {
-					cond, okc := fs.Cond.(*ast.BinaryExpr)
-					post, okp := fs.Post.(*ast.IncDecStmt)
-					ix, oki := ast.Unparen(idx.Index).(*ast.Ident)
-					if okc && okp && oki && sameIdent(p, cond.X, iv) && cond.Op == token.GEQ && isZero(cond.Y) && post.Tok == token.DEC && sameIdent(p, post.X, iv) && sameIdent(p, ix, iv) {
-						r.OK(key, pos, "for %s := len(stack)-1; %s >= 0; %s-- calling stack[%s]", iv.Name, iv.Name, iv.Name, iv.Name)
-						return true
-					}
-					if okc && sameIdent(p, cond.X, iv) && cond.Op == token.GTR && isZero(cond.Y) {
-						r.Violation(key, pos, "descending loop stops at index 1 (condition `> 0`): the first registered cleanup never runs")
-						return true
-					}
-				}
-				if iv != nil && isZero(as.Rhs[0]) {
-					if isMirror(idx.Index, iv, isLenStack) {
-						r.OK(key, pos, "ascending loop indexing len-1-%s", iv.Name)
-						return true
-					}
-					r.Violation(key, pos, "cleanups are called in an ascending loop over the stack: they run in registration order, not in reverse")
-					return true
-				}
-			}
-			r.Violation(key, pos, "the cleanup loop does not visit indices len-1 … 0 (init/cond/post/index not of the descending or mirrored form)")
-			return true
-		})
-	}
-	r.Floor("cleanup call expressions", found, 1)
-}
-
-func isZero(e ast.Expr) bool {
-	lit, ok := ast.Unparen(e).(*ast.BasicLit)
-	return ok && lit.Value == "0"
-}
-
-func sameIdent(p interface{}, e ast.Expr, id *ast.Ident) bool {
-	x, ok := ast.Unparen(e).(*ast.Ident)
-	return ok && x.Name == id.Name
-}
-
-// isMirror: e is len(stack)-1-i or len(stack)-i-1.
-func isMirror(e ast.Expr, i *ast.Ident, isLen func(ast.Expr) bool) bool {
-	b, ok := ast.Unparen(e).(*ast.BinaryExpr)
-	if !ok || b.Op != token.SUB {
-		return false
-	}
-	isI := func(x ast.Expr) bool { id, ok := ast.Unparen(x).(*ast.Ident); return ok && id.Name == i.Name }
-	isOne := func(x ast.Expr) bool { l, ok := ast.Unparen(x).(*ast.BasicLit); return ok && l.Value == "1" }
-	inner, ok := ast.Unparen(b.X).(*ast.BinaryExpr)
-	if !ok || inner.Op != token.SUB || !isLen(inner.X) {
-		return false
-	}
-	return (isOne(inner.Y) && isI(b.Y)) || (isI(inner.Y) && isOne(b.Y))
-}
-
-// enclosing returns the chain of nodes from the file down to the node at pos.
-func enclosing(f *ast.File, pos token.Pos) []ast.Node {
-	var path []ast.Node
-	ast.Inspect(f, func(n ast.Node) bool {
-		if n == nil {
-			return false
-		}
-		if n.Pos() <= pos && pos < n.End() {
-			path = append(path, n)
-			return true
-		}
-		return false
-	})
-	return path
 }
